@@ -60,6 +60,9 @@ type c11DB struct {
 	dels      int
 	openConns int
 	badDelete bool // a DELETE arrived that the stub cannot interpret
+	// a database stall: while hold is set every DELETE waits for the gate to open
+	hold bool
+	gate chan struct{}
 }
 
 type c11Connector struct{ db *c11DB }
@@ -106,6 +109,9 @@ func (r c11Result) LastInsertId() (int64, error) { return 0, nil }
 func (r c11Result) RowsAffected() (int64, error) { return r.n, nil }
 
 func (s *c11Stmt) Exec(args []driver.Value) (driver.Result, error) {
+	if s.db.hold {
+		<-s.db.gate
+	}
 	s.db.mu.Lock()
 	defer s.db.mu.Unlock()
 	q := strings.ToUpper(s.q)
@@ -290,4 +296,49 @@ func VerifC11Requeue() {
 		deleted := !d.rows[k].present
 		vrt.Assert(seen || deleted, "c11/requeued-branch-is-not-lost")
 	}
+}
+
+// VerifC11Pressure: the database stalls while branch commits keep arriving: one
+// commit worker, room for one waiting batch, every context flushed on arrival. Each
+// request was answered "committed", so once the stall is over every one of their
+// undo-log rows goes, however many batches had to wait.
+func VerifC11Pressure() {
+	undo.RegisterUndoLogManager(undomysql.NewUndoLogManager())
+	interval := 5 * time.Millisecond
+	d := &c11DB{name: "resA", hold: true, gate: make(chan struct{})}
+	mgr := &ATSourceManager{resourceCache: sync.Map{}, basic: datasource.NewBasicSourceManager(), rmRemoting: rm.GetRMRemotingInstance()}
+	mgr.resourceCache.Store("resA", &DBResource{resourceID: "resA", dbType: types.DBTypeMySQL, db: sql.OpenDB(c11Connector{d}), dbName: "resA"})
+	aw := &AsyncWorker{
+		conf:                       AsyncWorkerConfig{BufferLimit: 1, BufferCleanInterval: interval, ReceiveChanSize: 8, CommitWorkerCount: 1, CommitWorkerBufferSize: 1},
+		commitQueue:                make(chan phaseTwoContext, 8),
+		resourceMgr:                mgr,
+		commitWorker:               fanout.New("c11p", fanout.WithWorker(1), fanout.WithBuffer(1)),
+		branchCommitTotal:          c11Counter{},
+		doBranchCommitFailureTotal: c11Counter{},
+		receiveChanLength:          c11Gauge{},
+		rePutBackToQueue:           c11Counter{},
+	}
+	mgr.worker = aw
+	go aw.run()
+	n := 2 + vrt.Choice("requests", vrt.Param("pressure", 4))
+	for k := 0; k < n; k++ {
+		d.rows = append(d.rows, &c11Row{xid: "x", branch: int64(k + 1), present: true})
+	}
+	for k := 0; k < n; k++ {
+		st, err := mgr.BranchCommit(context.Background(), rm.BranchResource{BranchType: branch.BranchTypeAT, Xid: "x", BranchId: int64(k + 1), ResourceId: "resA"})
+		vrt.Assert(err == nil && st == branch.BranchStatusPhasetwoCommitted, "c11/pressure/accepted-request-answered-committed")
+		time.Sleep(interval / 2)
+	}
+	time.Sleep(2 * interval)
+	// the stall is over
+	d.hold = false
+	close(d.gate)
+	time.Sleep(time.Duration(4+2*n) * interval)
+	vrt.Reach("c11/pressure/quiescent")
+	d.mu.Lock()
+	vrt.Assert(!d.badDelete, "c11/pressure/delete-statement-shape")
+	for _, r := range d.rows {
+		vrt.Assert(!r.present, "c11/pressure/committed-branch-undo-log-deleted")
+	}
+	d.mu.Unlock()
 }
